@@ -300,9 +300,9 @@ func (x *condXlat) termDepth(e ast.Expr, depth int) (string, bool) {
 				}
 			}
 			if ver := x.v(o); ver > 0 {
-				return fmt.Sprintf("%s@%d", o.Name(), ver), true
+				return fmt.Sprintf("%s@%d", varKey(o), ver), true
 			}
-			return o.Name(), true
+			return varKey(o), true
 		}
 		return t.Name, obj != nil
 	case *ast.SelectorExpr:
@@ -680,4 +680,61 @@ func (x *condXlat) compare(t *ast.BinaryExpr) Formula {
 		}
 	}
 	return x.order(t.X, t.Y, mask)
+}
+
+// varKey names a variable in atoms: its name, made unique when the declaring
+// function declares several variables of that name (shadowing, `ok` reused in
+// nested scopes): the k-th one in source order (k ≥ 2) is "name·k". Without
+// this, facts about one `ok` would constrain another.
+var varKeyCache = map[*ast.FuncDecl]map[types.Object]string{}
+
+func varKey(o types.Object) string {
+	v, ok := o.(*types.Var)
+	if !ok || v.IsField() || gProg == nil || o.Pkg() == nil || !o.Pos().IsValid() {
+		return o.Name()
+	}
+	pk := gProg.Pkgs[o.Pkg().Path()]
+	if pk == nil {
+		return o.Name()
+	}
+	fd := gProg.enclosingFuncDecl(o.Pos())
+	if fd == nil {
+		return o.Name()
+	}
+	m, ok := varKeyCache[fd]
+	if !ok {
+		m = map[types.Object]string{}
+		byName := map[string][]types.Object{}
+		ast.Inspect(fd, func(n ast.Node) bool {
+			if id, ok := n.(*ast.Ident); ok {
+				if d, ok := pk.TypesInfo.Defs[id].(*types.Var); ok && d != nil && !d.IsField() {
+					dup := false
+					for _, e := range byName[d.Name()] {
+						if e == d {
+							dup = true
+						}
+					}
+					if !dup {
+						byName[d.Name()] = append(byName[d.Name()], d)
+					}
+				}
+			}
+			return true
+		})
+		for name, objs := range byName {
+			sort.Slice(objs, func(i, j int) bool { return objs[i].Pos() < objs[j].Pos() })
+			for i, d := range objs {
+				if i == 0 {
+					m[d] = name
+				} else {
+					m[d] = fmt.Sprintf("%s·%d", name, i+1)
+				}
+			}
+		}
+		varKeyCache[fd] = m
+	}
+	if k, ok := m[o]; ok {
+		return k
+	}
+	return o.Name()
 }
